@@ -1440,6 +1440,13 @@ SoPlexBase<R>& SoPlexBase<R>::operator=(const SoPlexBase<R>& rhs)
       // copy settings
       *_currentSettings = *(rhs._currentSettings);
 
+      // copy the rational images of the tolerance and infinity parameters
+      _rationalFeastol = rhs._rationalFeastol;
+      _rationalOpttol = rhs._rationalOpttol;
+      _rationalMaxscaleincr = rhs._rationalMaxscaleincr;
+      _rationalPosInfty = rhs._rationalPosInfty;
+      _rationalNegInfty = rhs._rationalNegInfty;
+
       // copy solver components
       _solver = rhs._solver;
       _slufactor = rhs._slufactor;
